@@ -44,7 +44,18 @@ Proof.
     { intros h v Hv. cbn [slot_shape]. rewrite He1, He2, He3, Hv. reflexivity. }
     cbn [slot_all] in HQ.
     destruct (f_label f) eqn:EL; try discriminate He1.
-    + eexists; split; [reflexivity | apply Keep; exact Hl4].
+    + (* required: a sub-message is merged like an optional one, anything else keeps the latter *)
+      destruct (f_type f) eqn:ET; try (eexists; split; [reflexivity | apply Keep; exact Hl4]).
+      unfold cell_shape in He4, Hl4. rewrite ET in He4, Hl4.
+      destruct ev as [| | |[em|]]; try discriminate He4; destruct lv as [| | |[lm|]]; try discriminate Hl4.
+      * apply andb_true_iff in He4, Hl4. destruct He4 as [Se De], Hl4 as [Sl Dl].
+        apply Nat.eqb_eq in De, Dl.
+        destruct (HQ lm eq_refl em Se Sl ltac:(congruence)) as (m & Hm & Sm & Dm).
+        rewrite Hm. cbn [bind]. eexists; split; [reflexivity|]. apply Keep. unfold cell_shape. rewrite ET.
+        rewrite Sm. cbn [andb]. apply Nat.eqb_eq. congruence.
+      * eexists; split; [reflexivity|]. apply Keep. unfold cell_shape. rewrite ET. exact He4.
+      * eexists; split; [reflexivity|]. apply Keep. unfold cell_shape. rewrite ET. exact Hl4.
+      * eexists; split; [reflexivity|]. apply Keep. unfold cell_shape. rewrite ET. exact Hl4.
     + unfold cell_shape in He4, Hl4.
       destruct (f_type f) eqn:ET;
         try (destruct ev; try discriminate He4; destruct lv; try discriminate Hl4;
